@@ -1,8 +1,8 @@
-\* Thorough tier: strings of <= 6 symbols in 8 folding contexts.
+\* Thorough tier: strings of <= 6 symbols in 4 folding contexts.
 SPECIFICATION Spec
 CONSTANTS
   MaxLen = 6
-  Maxlines = {12, 14}
+  Maxlines = {12}
   Indents = {3}
   LinePos = {0, 8}
   EndSpaces = {3}
